@@ -43,6 +43,28 @@ func raceLogPrefix() string {
 	return ""
 }
 
+// raceViolation turns the detector's output for one run into a violation
+// with one sub-class per report.
+func raceViolation(txt string) *detsim.Violation {
+	v := &detsim.Violation{Class: "race", Detail: txt}
+	seen := map[string]bool{}
+	for _, rep := range strings.Split(txt, "WARNING: DATA RACE") {
+		if !strings.Contains(rep, " by goroutine ") {
+			continue
+		}
+		s := raceSub(rep)
+		if !seen[s] {
+			seen[s] = true
+			v.Subs = append(v.Subs, s)
+		}
+	}
+	if len(v.Subs) == 0 {
+		v.Subs = []string{"unattributed"}
+	}
+	v.Sub = v.Subs[0]
+	return v
+}
+
 func raceSub(report string) string {
 	// stable signature of a race report: the two top application frames
 	var fr []string
@@ -154,7 +176,7 @@ func batch(args []string) {
 		v := rep.V
 		if txt := rl.Grown(); txt != "" {
 			// the race detector reported during this run
-			v = &detsim.Violation{Class: "race", Sub: raceSub(txt), Detail: txt}
+			v = raceViolation(txt)
 		}
 		if v != nil {
 			sig := v.Signature(*prop)
@@ -218,7 +240,7 @@ func replay(args []string) {
 	atomic.StoreInt32(&simRunning, 0)
 	v := rep.V
 	if txt := rl.Grown(); txt != "" {
-		v = &detsim.Violation{Class: "race", Sub: raceSub(txt), Detail: txt}
+		v = raceViolation(txt)
 	}
 	if ch.Err != nil {
 		fmt.Println("REPLAY-DIVERGED", ch.Err)
@@ -238,7 +260,7 @@ func replay(args []string) {
 	same := ""
 	if rf.Violation != nil {
 		same = fmt.Sprintf(" expected=%s same_class=%v same_loghash=%v", rf.Violation.Signature(rf.Property),
-			rf.Violation.Class == v.Class && rf.Violation.Sub == v.Sub, rf.EventLogHash == hash)
+			rf.Violation.Matches(v), rf.EventLogHash == hash)
 	}
 	fmt.Printf("REPLAY property=%s violation=%s loghash=%s%s\n", rf.Property, v.Signature(rf.Property), hash, same)
 	d := v.Detail
